@@ -20,6 +20,8 @@ func init() {
 }
 
 func runC07(c *core.Ctx) {
+	c.Rule("TOPLIMIT", "the outermost LIMIT is typechecked without the record schema and against Int")
+	checkTopLevelLimit(c, "TOPLIMIT")
 	c.Rule("MAYBE", "maybe-fitting arguments are asserted at run time; type-function overloads are not matched by arity")
 	checkMaybeLoops(c, "MAYBE")
 	c.Rule("PARSEPAN", "the query parser does not panic on grammatical input")
